@@ -414,11 +414,15 @@ def compExchAddLoop : List Nat → Bool → State → Bool × State
     let (ok1, s2) :=
       if idx.isEmpty then (ok, s1)
       else (true, { s1 with ctx := recordAdded s1.ctx idx s1.atoms.rows })
-    compExchAddLoop rs ok1 (s2.setObj r { s2.obj r with toAdd := none })
+    -- a pre-selection is one-shot: `move.to_add_atoms = None; move.to_delete_label = None`, whatever was done with it
+    compExchAddLoop rs ok1 (clearExch s2 r)
 
+/-- the deletion branch draws its own targets; pre-selections placed on a member are dropped at the top of the loop
+    body, i.e. on every exit path of the branch (`clearExch` touches neither labels nor inputs) -/
 def compExchDelLoop : List Nat → List Int → List Nat → State → List Int × List Nat × State
   | [], labs, idx, s => (labs, idx, s)
-  | r :: rs, labs, idx, s =>
+  | r :: rs, labs, idx, s0 =>
+    let s := clearExch s0 r
     let m := s.obj r
     let cand := setdiff (uniqueLabels m.labels) labs
     if cand.isEmpty then compExchDelLoop rs labs idx s
